@@ -29,10 +29,11 @@ Proof.
   induction qs as [|q qs IH]; [reflexivity|]. cbn [map]. rewrite IH. reflexivity.
 Qed.
 
-Lemma diff_accepts_model h ins : forall s i, diff_from h s (run_model h s ins) i = 0%N.
+Lemma diff_accepts_model h ins : h_db h = false -> forall s i, diff_from h s (run_model h s ins) i = 0%N.
 Proof.
-  induction ins as [|[[au c] qs] ins IH]; intros s i; [reflexivity|].
-  cbn [run_model diff_from]. rewrite queries_observe, eqb_out_refl, eqb_obs_refl. cbn [andb]. apply IH.
+  intros Hd. induction ins as [|[[au c] qs] ins IH]; intros s i; [reflexivity|].
+  cbn [run_model diff_from]. unfold step_any. rewrite Hd.
+  rewrite queries_observe, eqb_out_refl, eqb_obs_refl. cbn [andb]. apply IH.
 Qed.
 
 (* ---------- the universe of observed accounts ---------- *)
@@ -52,7 +53,8 @@ Proof. unfold accounts. rewrite map_length, seq_length. reflexivity. Qed.
 
 Definition wf_input (n : nat) (i : input) : bool :=
   forallb (fun a => N.ltb a (N.of_nat n)) (call_addrs (snd (fst i))).
-Definition wf_header (h : header) : bool := 0 <=? h_start h.
+(* a u32 start ledger, and the token is wired as the library intends (burns go through FungibleVotes::burn) *)
+Definition wf_header (h : header) : bool := (0 <=? h_start h) && negb (h_db h).
 
 (* ---------- what the model's observation contains ---------- *)
 Definition curvec (h : header) (s : state) : list Z :=
@@ -192,6 +194,25 @@ Proof.
   apply Z.eqb_eq. apply (inv_votes U s I).
 Qed.
 
+(* the checkpoint list shown (oldest first) answers like the timeline (newest first) *)
+Lemma lookup_list_app q l x v acc :
+  lookup_list q (l ++ [(x, v)]) acc = if x <=? q then v else lookup_list q l acc.
+Proof.
+  revert acc. induction l as [|[y w] l IH]; intros acc; [reflexivity|].
+  cbn [app lookup_list]. destruct (y <=? q); apply IH.
+Qed.
+Lemma lookup_list_view q t : lookup_list q (cps_view t) 0 = lookup_spec q t.
+Proof.
+  induction t as [|c r IH]; [reflexivity|]. unfold cps_view. cbn [rev]. rewrite map_app. cbn [map].
+  rewrite lookup_list_app. fold (cps_view r). rewrite IH. reflexivity.
+Qed.
+Lemma list_answers_observe h s qs q : list_answers q (observe h s qs) = pastvec h s q.
+Proof.
+  unfold list_answers, pastvec, observe. cbn [o_accts o_ts_cps]. rewrite map_map. f_equal.
+  - apply map_ext. intros a. unfold observe_acct. cbn [ao_cps]. apply lookup_list_view.
+  - f_equal. apply lookup_list_view.
+Qed.
+
 Lemma and7 a b c d e f g : a = true -> b = true -> c = true -> d = true -> e = true -> f = true -> g = true ->
   a && b && c && d && e && f && g = true.
 Proof. intros; subst; reflexivity. Qed.
@@ -221,7 +242,10 @@ Proof.
     destruct (Z.lt_ge_cases q (s_now s')) as [Hq|Hq].
     + rewrite (observe_past_lt h s' q W' Hq). unfold past_ok.
       replace (q <? s_now s') with true by (symmetry; apply Z.ltb_lt; exact Hq).
-      rewrite (hist_describes_next h hist s s' c W Hh Sh q Hq). apply eqb_list_refl. apply eqb_oz_refl.
+      rewrite (hist_describes_next h hist s s' c W Hh Sh q Hq).
+      change (observe_past h s') with (observe_past h s'). 
+      match goal with |- context [list_answers q ?o] => replace (list_answers q o) with (pastvec h s' q) by (symmetry; apply (list_answers_observe h s' qs q)) end.
+      rewrite (eqb_list_refl _ _ eqb_oz_refl). reflexivity.
     + rewrite (observe_past_ge h s' q Hq). unfold past_ok.
       replace (q <? s_now s') with false by (symmetry; apply Z.ltb_ge; exact Hq).
       rewrite app_length, map_length, accounts_length. cbn [length].
@@ -261,6 +285,20 @@ Proof.
     apply core_with_now.
 Qed.
 
+Lemma map_const_repeat {A B} (b : B) (l : list A) : map (fun _ => b) l = repeat b (length l).
+Proof. induction l as [|x l IH]; [reflexivity|]. cbn [map length repeat]. rewrite IH. reflexivity. Qed.
+
+(* the observation of a freshly deployed contract is the empty observation *)
+Lemma core_empty_obs h qs : core (empty_obs h) = core (observe h (init h) qs).
+Proof.
+  unfold core, empty_obs, observe. cbn [o_accts o_supply o_ts o_ts_cps o_owners].
+  replace (map (observe_acct (init h)) (accounts (h_n h))) with (repeat (mkA 0 0 None 0 []) (h_n h)).
+  2:{ rewrite <- (accounts_length (h_n h)) at 1. rewrite <- map_const_repeat. apply map_ext. intros a. reflexivity. }
+  replace (map (fun i : nat => owner_of (init h) (Z.of_nat i)) (seq 0 (h_ids h))) with (repeat (@None addr) (h_ids h)).
+  2:{ rewrite <- (seq_length (h_ids h) 0) at 1. rewrite <- map_const_repeat. apply map_ext. intros a. reflexivity. }
+  reflexivity.
+Qed.
+
 (* delegatees change only by the account's own successful delegate call *)
 Lemma step_delegate_frame h s au c : 0 <= s_now s -> forall k,
   delegate_of (s_v (fst (step h s au c))) k =
@@ -286,21 +324,32 @@ Proof.
     + reflexivity.
 Qed.
 
+(* the ledger moves exactly by the amount of a successful Advance *)
+Lemma step_now h s au c :
+  s_now (fst (step h s au c)) = s_now s + clock_step c (snd (step h s au c)).
+Proof.
+  assert (G : (forall n, c <> Advance n) -> s_now (fst (step h s au c)) = s_now s).
+  { intros Hc. destruct (step_shape h s au c) as [Hn Hv Hb [Hc'|[n0 Hc']]|from to amt Hamt Hn Ht Hb Hft|auths acc d Hn Hd Hb Hacc]; auto.
+    exfalso. apply (Hc n0). exact Hc'. }
+  destruct c as [n| | | | | | | |]; try (cbn [clock_step]; rewrite G by (intros; discriminate); lia).
+  unfold step. destruct (is_fungible (h_kind h)).
+  - cbn [step_f]. destruct ((0 <=? n) && in_u32 (s_now s + n)); cbn [guard bind fst snd is_ok clock_step s_now with_now]; lia.
+  - unfold step_n. cbn [call_arg]. replace (in_u32 0) with true by reflexivity. cbn [guard bind].
+    destruct ((0 <=? n) && in_u32 (s_now s + n)); cbn [guard bind fst snd is_ok clock_step s_now with_now]; lia.
+Qed.
+
 Lemma nth_error_accounts n k : (k < n)%nat -> nth_error (accounts n) k = Some (N.of_nat k).
 Proof.
   intros H. unfold accounts. apply map_nth_error.
   rewrite (nth_error_nth' (seq 0 n) 0%nat) by (rewrite seq_length; exact H). rewrite seq_nth by exact H. reflexivity.
 Qed.
 
-Lemma prev_dlg_model h s prev : 
-  (forall p, prev = Some p -> exists qs0, p = observe h s qs0) ->
-  (prev = None -> forall a, delegate_of (s_v s) a = None) ->
+Lemma prev_dlg_model h s prev :
+  o_accts prev = map (observe_acct s) (accounts (h_n h)) ->
   forall k, (k < h_n h)%nat -> prev_dlg prev k = delegate_of (s_v s) (N.of_nat k).
 Proof.
-  intros Hp Hn k Hk. unfold prev_dlg. destruct prev as [p|].
-  - destruct (Hp p eq_refl) as [qs0 ->]. cbn [o_accts observe].
-    rewrite (map_nth_error (observe_acct s) k (accounts (h_n h)) (nth_error_accounts _ _ Hk)). reflexivity.
-  - symmetry. apply Hn. reflexivity.
+  intros Hp k Hk. unfold prev_dlg. rewrite Hp.
+  rewrite (map_nth_error (observe_acct s) k (accounts (h_n h)) (nth_error_accounts _ _ Hk)). reflexivity.
 Qed.
 
 Lemma dlg_ok_from_model h s au c prev :
@@ -317,46 +366,102 @@ Proof.
   destruct c; reflexivity.
 Qed.
 
+(* no call rewrites the past of a checkpoint list *)
+Lemma cps_frame_model now t t' : (forall q, q < now -> lookup_spec q t' = lookup_spec q t) ->
+  cps_frame_ok now (cps_view t) (cps_view t') = true.
+Proof.
+  intros H. unfold cps_frame_ok. rewrite forallb_forall. intros q Hq. rewrite !lookup_list_view.
+  apply Z.eqb_eq. symmetry. apply H.
+  unfold frame_cands in Hq. apply in_app_or in Hq. destruct Hq as [Hq|[<-|[]]]; [|lia].
+  apply filter_In in Hq. destruct Hq as [_ Hq]. apply Z.ltb_lt in Hq. exact Hq.
+Qed.
+
+Lemma past_frame c s s' : winv s -> shape c s s' ->
+  forall ct q, q < s_now s' -> lookup_spec q (get_tl (s_v s') ct) = lookup_spec q (get_tl (s_v s) ct).
+Proof.
+  intros [H0 W] Sh ct q Hq. destruct (shape_rel c s s' H0 Sh) as [Hn [Hx Hv]].
+  destruct (Z.eq_dec (s_now s) (s_now s')) as [E|E].
+  - apply (vext_get_tl _ _ _ Hx ct). lia.
+  - rewrite (Hv E). reflexivity.
+Qed.
+
+Lemma accts_frame_model now (s s' : state) (l : list addr) :
+  (forall a q, q < now -> lookup_spec q (tl_of (s_v s') a) = lookup_spec q (tl_of (s_v s) a)) ->
+  accts_frame_ok now (map (observe_acct s) l) (map (observe_acct s') l) = true.
+Proof.
+  intros H. induction l as [|a l IH]; [reflexivity|]. cbn [map accts_frame_ok]. rewrite IH, andb_true_r.
+  unfold observe_acct. cbn [ao_cps]. apply cps_frame_model. apply H.
+Qed.
+
+Lemma has_row_observe h s qs q : In q qs -> has_row q (observe h s qs) = true.
+Proof.
+  intros Hin. unfold has_row, observe. cbn [o_past]. apply existsb_exists.
+  exists (observe_past h s q). split; [apply in_map; exact Hin|]. unfold observe_past. cbn [fst]. apply Z.eqb_refl.
+Qed.
+
+Lemma shape_ok_model h s au c prev qs : 0 <= s_now s ->
+  o_now prev = s_now s ->
+  let s' := fst (step h s au c) in
+  shape_ok h prev c (snd (step h s au c)) (observe h s' (qs ++ std_queries (s_now s'))) = true.
+Proof.
+  intros H0 Hp s'. unfold shape_ok. cbn [o_accts o_owners o_now observe].
+  rewrite !map_length, accounts_length, seq_length, !Nat.eqb_refl. cbn [andb].
+  rewrite Hp. unfold s'. rewrite <- step_now. rewrite Z.eqb_refl. cbn [andb]. fold s'.
+  assert (Hs' : 0 <= s_now s') by (unfold s'; destruct (shape_rel c s _ H0 (step_shape h s au c)) as [Hn _]; lia).
+  change (s_now s') with (o_now (observe h s' (qs ++ std_queries (s_now s')))) at 1.
+  rewrite has_row_observe by (apply in_or_app; right; unfold std_queries; apply in_or_app; right; left; reflexivity).
+  cbn [andb o_now observe].
+  destruct (s_now s' =? 0) eqn:E; [reflexivity|]. apply Z.eqb_neq in E. cbn [orb].
+  apply has_row_observe. apply in_or_app. right. unfold std_queries.
+  replace (0 <? s_now s') with true by (symmetry; apply Z.ltb_lt; lia). left. reflexivity.
+Qed.
+
+Lemma and6 a b c d e f : a = true -> b = true -> c = true -> d = true -> e = true -> f = true ->
+  a && b && c && d && e && f = true.
+Proof. intros; subst; reflexivity. Qed.
+
 Lemma mon_accepts_model h ins : forall s prev hist i,
   inv (accounts (h_n h)) s -> winv s -> hinv h hist s ->
-  (forall p, prev = Some p -> exists qs0, p = observe h s qs0) ->
-  (prev = None -> forall a, delegate_of (s_v s) a = None) ->
+  core prev = core (observe h s []) -> o_now prev = s_now s ->
   forallb (wf_input (h_n h)) ins = true ->
-  mon_from prev (s_now s) hist (run_model h s ins) i = 0%N.
+  mon_from h prev hist (run_model h s ins) i = 0%N.
 Proof.
   induction ins as [|[[au c] qs] ins IH]; intros s prev hist i I W Hh Hp Hpn Hwf; [reflexivity|].
   cbn [forallb] in Hwf. apply andb_prop in Hwf. destruct Hwf as [Hwf1 Hwf].
   cbn [run_model mon_from]. set (s' := fst (step h s au c)).
+  set (qs' := qs ++ std_queries (s_now s')).
   assert (Sh : shape c s s') by apply step_shape.
   assert (I' : inv (accounts (h_n h)) s').
   { eapply inv_step; [apply accounts_NoDup| |exact I|exact Sh]. apply (wf_input_in _ _ Hwf1). }
-  rewrite (mon_obs_model h hist s s' c qs I' W Hh Sh).
-  assert (St : stable_ok prev c (snd (step h s au c)) (observe h s' qs) = true).
-  { unfold stable_ok. destruct prev as [p|]; [|reflexivity]. destruct (Hp p eq_refl) as [qs0 ->].
-    destruct (is_advance c || negb (is_ok (snd (step h s au c)))) eqn:E; [|reflexivity].
-    apply core_eqb_of_eq. symmetry. apply step_stable. exact E. }
-  rewrite St. cbn [andb].
-  assert (Dl : dlg_ok_from prev c (snd (step h s au c)) (o_accts (observe h s' qs)) 0 = true).
-  { cbn [o_accts observe]. apply (dlg_ok_from_model h s au c prev (proj1 W) (prev_dlg_model h s prev Hp Hpn) (h_n h) 0%nat). lia. }
-  rewrite Dl.
-  rewrite cur_vector_observe. cbn [o_now observe].
+  assert (Hacc : o_accts prev = map (observe_acct s) (accounts (h_n h))) by (unfold core in Hp; inversion Hp; reflexivity).
+  assert (Hts : o_ts_cps prev = cps_view (v_ts (s_v s))) by (unfold core in Hp; inversion Hp; reflexivity).
+  assert (M : mon_item h prev hist c (snd (step h s au c)) (observe h s' qs') = true).
+  { unfold mon_item. apply and6.
+    - rewrite Hpn. apply (mon_obs_model h hist s s' c qs' I' W Hh Sh).
+    - unfold stable_ok. destruct (is_advance c || negb (is_ok (snd (step h s au c)))) eqn:E; [|reflexivity].
+      apply core_eqb_of_eq. rewrite Hp. symmetry. apply step_stable. exact E.
+    - cbn [o_accts observe]. apply (dlg_ok_from_model h s au c prev (proj1 W) (prev_dlg_model h s prev Hacc) (h_n h) 0%nat). lia.
+    - cbn [o_accts o_now observe]. rewrite Hacc. apply accts_frame_model.
+      intros a q Hq. apply (past_frame c s s' W Sh (CAcct a) q Hq).
+    - cbn [o_ts_cps o_now observe]. rewrite Hts. apply cps_frame_model.
+      intros q Hq. apply (past_frame c s s' W Sh CTotal q Hq).
+    - apply (shape_ok_model h s au c prev qs (proj1 W) Hpn). }
+  rewrite M. rewrite cur_vector_observe. cbn [o_now observe].
   apply IH; auto.
   - apply winv_step. exact W.
   - eapply hinv_step; eauto.
-  - intros p Hp'. inversion Hp'. exists qs. reflexivity.
-  - intros Hp'. discriminate.
 Qed.
 
 Theorem check_accepts_model h ins :
   wf_header h = true -> forallb (wf_input (h_n h)) ins = true ->
   check (observe_model h ins) = (0%N, 0%N, 0%N).
 Proof.
-  intros Hh Hwf. unfold wf_header in Hh. apply Z.leb_le in Hh.
-  unfold check, observe_model. rewrite diff_accepts_model.
-  change (h_start h) with (s_now (init h)).
+  intros Hh Hwf. unfold wf_header in Hh. apply andb_prop in Hh. destruct Hh as [Hh Hd].
+  apply Z.leb_le in Hh. apply negb_true_iff in Hd.
+  unfold check, observe_model. rewrite Hd. rewrite (diff_accepts_model h ins Hd).
   rewrite mon_accepts_model; auto.
   - apply inv_init. exact Hh.
   - apply winv_init. exact Hh.
   - apply hinv_init.
-  - intros p Hp. discriminate.
+  - apply core_empty_obs.
 Qed.
